@@ -62,7 +62,18 @@ DecisionValue(m, name, inputs) ==
               \o [i \in 1..Len(d.reqDec) |-> [n |-> d.reqDec[i], v |-> DecisionValue(m, d.reqDec[i], inputs)]]
               \o [i \in 1..Len(d.reqBkm) |-> [n |-> d.reqBkm[i], v |-> BkmFn(m, d.reqBkm[i])]]
               \o [i \in 1..Len(d.reqSvc) |-> [n |-> d.reqSvc[i], v |-> ServiceFn(m, d.reqSvc[i], inputs)]]
-  IN EvalForm(d.form, <<Ctx(ents)>>)
+  IN IF d.form.f = "inv" /\ Has(m.services, d.form.callee)
+     THEN \* a boxed invocation of a required decision service: the bindings name the service's inputs, so their order plays
+          \* no part; the service is evaluated on exactly the bound values
+          LET s  == Find(m.services, d.form.callee)
+              bs == d.form.binds
+              BoundTo(n) == bs[CHOOSE j \in 1..Len(bs) : bs[j].p = n].form
+          IN IF s.inDec # <<>> \/ Len(bs) # Len(s.inData) \/ ~(\A i \in 1..Len(s.inData) : \E j \in 1..Len(bs) : bs[j].p = s.inData[i])
+                \/ ~(\E i \in 1..Len(d.reqSvc) : d.reqSvc[i] = d.form.callee) THEN Unspec
+             ELSE LET vals == [i \in 1..Len(s.inData) |-> Eval(TreeOf(BoundTo(s.inData[i])), <<Ctx(ents)>>)] IN
+                  IF \E i \in 1..Len(vals) : IsU(vals[i]) THEN Unspec
+                  ELSE ServiceValue(m, s.name, Ctx([i \in 1..Len(s.inData) |-> [n |-> s.inData[i], v |-> vals[i]]]))
+     ELSE EvalForm(d.form, <<Ctx(ents)>>)
 
 \* a decision service evaluated on an input context: its output decisions' values
 ServiceValue(m, name, inputs) ==
